@@ -363,6 +363,9 @@ def gen_store(pid, tier, seed, scale, rng, hists, stats):
         for _ in range((700 if q else 7000) * scale):
             hists.append(sg.purge_history(rng))
             stats["purge histories"] += 1
+        for _ in range((200 if q else 2000) * scale):
+            hists.append(sg.lazy_purge_history(rng))
+            stats["deferred deletion + entity-creating closure in one maintain"] += 1
         for _ in range((100 if q else 1000) * scale):
             hists.append(sg.random_store_history(rng, rng.randint(10, 60)))
             stats["random storage histories"] += 1
